@@ -161,6 +161,7 @@ class _HistState:
         self.B = "vB"
         self.n = 0
         self.per_side = None
+        self.side = None
 
     def fresh(self, p):
         self.n += 1
@@ -182,7 +183,11 @@ def _solve_ops(st, v, mode=None, bad=None):
 def _hist_letter(st, name):
     rng = st.rng
     cls = st.cls
-    side = rng.choice(_sides(cls))
+    # interactions between edits, faults and consumers are mostly per face: stay on
+    # the face of the previous letter most of the time
+    if st.side is None or rng.random() < 0.35:
+        st.side = rng.choice(_sides(cls))
+    side = st.side
     tgt = {"bv": st.A}
     if name == "c_assign":
         return [{"k": "bc_edit", "a": dict(tgt, side=side, coef="c", how="assign",
@@ -596,6 +601,9 @@ def plan_algebra(index):
             {"k": "scribble", "a": {"obj": "x", "i": i, "x": 2.5 + i}} for i in range(3)
         ] + [{"k": "scribble", "a": {"obj": "y", "i": rng.randrange(3), "x": 8.5}}]
     rng.shuffle(follow)
+    if kind == "f":
+        follow = [{"k": "eval", "out": "boomres", "a": {"fn": "faceeval", "f": "boom", "args": ["x", ][:1]}},
+                  {"k": "scribble", "a": {"obj": "x", "i": rng.randrange(3), "x": 3.25}}] + follow
     if kind == "v":
         # a call that fails part-way (raising user function) must leave its
         # arguments as they were: they are edited right afterwards
@@ -881,20 +889,24 @@ def families(prop, tier):
     if prop == "C03":
         return [("bc12", bcmatrix_size((1, 2)), bcmatrix_size((1, 2))),
                 ("bc3", bcmatrix_size((3,)), 1500 if q else bcmatrix_size((3,))),
-                ("hist2", hist_size(2), 1200 if q else hist_size(2))]
+                ("hist2", hist_size(2), 1000 if q else hist_size(2)),
+                ("hist3", hist_size(3), 800 if q else 40000)]
     if prop == "C14":
         return [("algebra", algebra_size(), algebra_size()),
                 ("hist2", hist_size(2), 600 if q else hist_size(2))]
     if prop == "C15":
         return [("builders", builders_size(), builders_size()),
-                ("hist2", hist_size(2), 1200 if q else hist_size(2)),
+                ("hist2", hist_size(2), 1000 if q else hist_size(2)),
+                ("hist3", hist_size(3), 600 if q else 40000),
                 ("terms", terms_size(), 400 if q else terms_size())]
     if prop == "C04":
         return [("terms", terms_size(), 1500 if q else terms_size()),
-                ("hist2", hist_size(2), 1200 if q else hist_size(2))]
+                ("hist2", hist_size(2), 1000 if q else hist_size(2)),
+                ("hist3", hist_size(3), 800 if q else 40000)]
     if prop == "C12":
         return [("steps", steps_size(), steps_size()),
-                ("hist2", hist_size(2), 1000 if q else hist_size(2))]
+                ("hist2", hist_size(2), 800 if q else hist_size(2)),
+                ("hist3", hist_size(3), 800 if q else 40000)]
     return []
 
 
